@@ -27,6 +27,7 @@ import (
 	"sync/atomic"
 	"time"
 
+	"github.com/uhppoted/uhppote-core/types"
 	"verif/spec"
 	"verif/vk"
 )
@@ -386,6 +387,67 @@ func enumerate(r *vk.Run) {
 		runCases(r, "PutCard/card-numbers-x-formats", cases)
 		r.Set("card_numbers_quick_set", len(cards))
 		r.Set("format_lists_api", len(lists))
+	}
+
+	// (2b) PutCard histories: one format list, held by the caller in one slice, used for two
+	// consecutive calls; every list of length 1..3 over {any, Wiegand-26, CardFormat(7)} x every
+	// ordered pair of card numbers from a small set. Each call is judged against the list as the
+	// caller wrote it; afterwards the caller's slice must be unchanged.
+	if r.Worker == "" {
+		syms := []string{"any", "wiegand26", "7"}
+		lists := [][]string{}
+		for _, a := range syms {
+			lists = append(lists, []string{a})
+			for _, b := range syms {
+				lists = append(lists, []string{a, b})
+				for _, c := range syms {
+					lists = append(lists, []string{a, b, c})
+				}
+			}
+		}
+		numbers := []uint32{12345678, 8165538, 99999999, 25565535, 25565536, 1}
+		var n int64
+		for _, list := range lists {
+			for _, n1 := range numbers {
+				for _, n2 := range numbers {
+					cl, err := newClient(cfgBroadcast, 405419896)
+					if err != nil {
+						r.Machinery("cannot build client: %v", err)
+						break
+					}
+					lib, ref := formatKinds(list)
+					held := append(make([]types.CardFormat, 0, len(lib)+2), lib...)
+					for step, num := range []uint32{n1, n2} {
+						n++
+						card := types.Card{CardNumber: num, From: types.ToDate(2024, 1, 1), To: types.ToDate(2024, 12, 31), Doors: map[uint8]uint8{1: 1}, PIN: 7531}
+						before := len(cl.f.Calls)
+						var callErr error
+						if p, msg, frame := vk.Guard(func() { _, callErr = cl.u.PutCard(405419896, card, held...) }); p {
+							r.Violation("C07/PutCard/panic/"+frame, msg, "putcard-history", map[string]any{"formats": list, "numbers": []uint32{n1, n2}})
+							continue
+						}
+						want := spec.CardNumberAllowed(num, ref)
+						sent := len(cl.f.Calls) - before
+						c := map[string]any{"formats": list, "numbers": []uint32{n1, n2}, "step": step}
+						switch {
+						case want && (callErr != nil || sent != 1):
+							r.Violation("C07/PutCard/format-list-reused/rejected-valid-argument", fmt.Sprintf("call %d with card %d and the caller's format list %v: err=%v, %d requests sent; the number matches the list", step+1, num, list, callErr, sent), "putcard-history", c)
+						case !want && (callErr == nil || sent != 0):
+							r.Violation("C07/PutCard/format-list-reused/accepted-invalid-argument", fmt.Sprintf("call %d with card %d and the caller's format list %v (same slice as the previous call): err=%v, %d requests sent; the number matches none of the formats", step+1, num, list, callErr, sent), "putcard-history", c)
+						}
+					}
+					for i := range lib {
+						if held[i] != lib[i] {
+							r.Violation("C07/PutCard/format-list-modified", fmt.Sprintf("the caller's format slice %v was changed to %v by PutCard", lib, held), "putcard-history", map[string]any{"formats": list, "numbers": []uint32{n1, n2}})
+							break
+						}
+					}
+				}
+			}
+		}
+		r.Count(n)
+		r.Distinct(n)
+		r.Add("cases/PutCard/format-list-histories", n)
 	}
 
 	// (3) PutCard: every PIN 0..1000100, then the 32-bit alphabet
@@ -932,7 +994,7 @@ func main() {
 	}
 
 	rule := "every listed argument tuple of all 31 controller-addressed operations (and GetDevices) through the public API with a recording fake driver: " +
-		"controller ids over the structured 32-bit alphabet x 3 client configurations; PutCard card numbers (structured set) x all format lists of length <= 2 over {any, Wiegand-26, CardFormat(7)} x PIN boundaries, every PIN 0..1000100; " +
+		"controller ids over the structured 32-bit alphabet x 3 client configurations; PutCard card numbers (structured set) x all format lists of length <= 2 over {any, Wiegand-26, CardFormat(7)} x PIN boundaries, every format list of length 1..3 held in one caller-side slice across two consecutive calls x 36 ordered number pairs, every PIN 0..1000100; " +
 		"SetListener address classes x ports (all 65536 ports for 5 addresses); SetAddress byte-slice forms^3, lengths 0..20, every octet; SetDoorPasscodes doors 0..255 x all passcode lists of length 0..6 over 5 values; " +
 		"SetTimeProfile dates x segment presence, all 1441^2 (start,end) pairs in each segment position, all id x linked pairs; every other operation over its boundary alphabet. " +
 		"distinct = distinct (operation, configuration, controller id, argument tuple) combinations (hash set over the table-built families; an index-generated sweep of one operation is injective by construction and contributes its size minus the number of table-built cases of that operation minus a stated bound on its overlap with the other sweeps of that operation)"
